@@ -86,7 +86,8 @@ def generate(seed: int, tier: str) -> Dict[str, Any]:
             ops.append({"op": "turn", "agent": ro.choice(agents), "text": E.gen_text(ro), "turn_id": tid,
                         "now_ms": E.T0_MS + turn * 1000, "deltas": deltas, "store_fault": fault})
             turn += ro.choice([1, 1, 1, 0, 2])
-    return {"world": world, "cfg": raw, "ops": ops}
+    # how the caller hands the configuration over: ctx.cfg + ctx.config, or ctx.cfg only (TurnCtx, run_smoke_turn)
+    return {"world": world, "cfg": raw, "ops": ops, "ctx_style": r.choice(["both", "both", "cfg_only"])}
 
 
 _EXC = {"RuntimeError": RuntimeError, "ValueError": ValueError, "KeyError": KeyError, "OSError": OSError}
@@ -153,6 +154,7 @@ def execute(program: Dict[str, Any]) -> Dict[str, Any]:
         with E.EngineEnv(root, clock) as ee:
             store = RecordingStore()
             run = E.EngineRun(program["world"], program["cfg"], ee, store=store)
+            run.ctx_style = program.get("ctx_style", "both")
             cur: Dict[str, Any] = {"deltas": [], "approved": None, "snap_calls": 0}
 
             def delib(ctx, state, bundle):
